@@ -12,7 +12,10 @@
 (* state per row, so the cubic transitivity check is spread over the workers.               *)
 EXTENDS NumericCmp, SequencesExt, TLC
 
-CONSTANTS Alphabet, MaxLen
+(* '-' '0' '1' '9' '.'; plain definitions rather than CONSTANTS: TLC caches the constant     *)
+(* definitions below (V, VS, M) only when they do not depend on declared constants          *)
+Alphabet == {45, 48, 49, 57, 46}
+MaxLen == 4
 
 All == UNION { [1..n -> Alphabet] : n \in 0..MaxLen }
 (* TLCEval forces TLC to evaluate these constants once instead of re-evaluating the lazy   *)
@@ -35,33 +38,36 @@ Scaled(s) ==
 Sg(x) == IF x < 0 THEN -1 ELSE IF x > 0 THEN 1 ELSE 0
 
 (* rows are visited in heap order (i -> 2i, 2i+1) so that the workers share them *)
-VARIABLE i
-Init == i = 0
-Next == \/ i = 0 /\ i' = 1
-        \/ i > 0 /\ \E c \in {2 * i, 2 * i + 1} : c <= N /\ i' = c
-Spec == Init /\ [][Next]_i
+(* (the state variable must not share its name with a bound variable of the constant M:   *)
+(* TLC then stops treating M as a constant and re-evaluates it at every use)               *)
+VARIABLE row
+Init == row = 0
+Next == \/ row = 0 /\ row' = 1
+        \/ row > 0 /\ \E c \in {2 * row, 2 * row + 1} : c <= N /\ row' = c
+Spec == Init /\ [][Next]_row
 
 Classification ==
-    i = 0 => /\ \A s \in All : ~(ValidReal(s) /\ GrayReal(s))
-             /\ VD \subseteq V
-             /\ \A s \in All : ValidDecimal(s) = (ValidReal(s) /\ DotCount(s) = 0)
-             /\ { s \in All : GrayReal(s) } = { <<>>, <<Minus>>, <<Dot>>, <<Minus, Dot>> } \cap All
-             /\ N > 100 /\ Cardinality(VD) > 30
+    row = 0 =>
+    /\ \A s \in All : ~(ValidReal(s) /\ GrayReal(s))
+    /\ VD \subseteq V
+    /\ \A s \in All : ValidDecimal(s) = (ValidReal(s) /\ DotCount(s) = 0)
+    /\ { s \in All : GrayReal(s) } = { <<>>, <<Minus>>, <<Dot>>, <<Minus, Dot>> } \cap All
+    /\ N > 100 /\ Cardinality(VD) > 30
 
 RowLaws ==
-    i > 0 =>
-    /\ M[i][i] = 0
-    /\ \A j \in 1..N : M[i][j] \in {-1, 0, 1} /\ M[i][j] = -M[j][i]
-    /\ \A j \in 1..N : M[i][j] <= 0 =>
-          \A k \in 1..N : M[j][k] <= 0 => /\ M[i][k] <= 0
-                                          /\ (M[i][k] = 0 => M[i][j] = 0 /\ M[j][k] = 0)
+    row > 0 =>
+    /\ M[row][row] = 0
+    /\ \A j \in 1..N : M[row][j] \in {-1, 0, 1} /\ M[row][j] = -M[j][row]
+    /\ \A j \in 1..N : M[row][j] <= 0 =>
+          \A k \in 1..N : M[j][k] <= 0 => /\ M[row][k] <= 0
+                                          /\ (M[row][k] = 0 => M[row][j] = 0 /\ M[j][k] = 0)
 AgreesWithArithmetic ==
-    i > 0 => \A j \in 1..N : M[i][j] = Sg(Scaled(VS[i]) - Scaled(VS[j]))
+    row > 0 => \A j \in 1..N : M[row][j] = Sg(Scaled(VS[row]) - Scaled(VS[j]))
 
 (* the same value written differently *)
 SameValueForms ==
-    i > 0 =>
-    LET s == VS[i]
+    row > 0 =>
+    LET s == VS[row]
         b == Body(s)
         sign == IF HasSign(s) THEN <<s[1]>> ELSE <<>>
     IN /\ ValueCmp(s, sign \o <<Zero>> \o b) = 0                               \* leading zero
